@@ -30,16 +30,47 @@ def from_binder(fi: FuncInfo, at_node: ast.AST, expr: ast.AST, binder: str, coll
 
 @RULES.rule("C18", "R18a", "one UFO per master, built from that master's own config, glyphmap and sources", floor=7)
 def r18a(model: Model, rr: RuleResult):
-    fi = model.func("nanoemoji", "write_ufo_build")
+    nm = model.mod("nanoemoji")
+    in_callee_loop = None
+    if nm.has_func("write_ufo_build"):
+        fi = nm.func("write_ufo_build")
+        M = "master"
+        if M not in fi.params:
+            raise AnalysisError("write_ufo_build: no 'master' parameter")
+    else:
+        # by role: the function that emits the write_font edge whose output is <binder>.output_ufo; the binder is a parameter or the variable of a loop over font_config.masters
+        cands = []
+        for f in nm.functions.values():
+            if isinstance(f.node, ast.Lambda):
+                continue
+            for c in calls_in(f):
+                if callee_tail(c) == "build" and len(c.args) >= 2 and isinstance(c.args[0], ast.Attribute) and c.args[0].attr == "output_ufo" and isinstance(c.args[0].value, ast.Name) \
+                        and norm(c.args[1]) == "'write_font'":
+                    cands.append((f, c))
+        if len(cands) > 1:
+            # a new helper is also inlined into its callers by the normaliser: read the helper itself
+            import json
+            from ..normalize import REF_FILE
+            ref = json.loads(REF_FILE.read_text())
+            fresh = [(f, c) for f, c in cands if f"nanoemoji:{f.qualname}" not in ref]
+            cands = fresh if len(fresh) == 1 else cands
+        if len(cands) != 1:
+            raise AnalysisError("function nanoemoji.write_ufo_build not found and no single function emits the per-master UFO edge")
+        fi, bc = cands[0]
+        M = bc.args[0].value.id
+        if M not in fi.params:
+            loops = [l for l in walk_body(fi) if isinstance(l, ast.For) and isinstance(l.target, ast.Name) and l.target.id == M and norm(l.iter).endswith(".masters") and any(x is bc for x in ast.walk(l))]
+            if len(loops) != 1:
+                raise AnalysisError(f"{fi.name}: '{M}' is neither a parameter nor the variable of a loop over the masters")
+            in_callee_loop = loops[0]
+    FN = fi.name
     cfg = cfg_of(fi)
-    if "master" not in fi.params:
-        raise AnalysisError("write_ufo_build: no 'master' parameter")
     # ufo_config = font_config._replace(output_file=master.output_ufo, masters=(master,))
     rep = [c for c in calls_in(fi) if callee_tail(c) == "_replace" and "font_config" in norm(c.func)]
     if len(rep) != 1:
-        raise AnalysisError("write_ufo_build: font_config._replace(...) not found")
+        raise AnalysisError(f"{FN}: font_config._replace(...) not found")
     of, ms = kwarg(rep[0], "output_file"), kwarg(rep[0], "masters")
-    if of is not None and norm(of) == "master.output_ufo" and ms is not None and norm(ms) in ("(master,)", "[master]"):
+    if of is not None and norm(of) == f"{M}.output_ufo" and ms is not None and norm(ms) in (f"({M},)", f"[{M}]"):
         rr.ok("UFO config = font_config._replace(output_file=master.output_ufo, masters=(master,))")
     else:
         rr.bad(fi, rep[0], "the per-master UFO config is not restricted to this master / does not write to this master's UFO", construct=short(rep[0], 140))
@@ -47,30 +78,34 @@ def r18a(model: Model, rr: RuleResult):
     if len(us) == 1:
         rr.ok("UFO config sources are redirected to the build's picosvgs (_update_sources)")
     else:
-        rr.bad(fi, fi.node, "UFO config sources are not redirected to picosvg outputs", construct="write_ufo_build: _update_sources")
+        rr.bad(fi, fi.node, "UFO config sources are not redirected to picosvg outputs", construct=f"{FN}: _update_sources")
     wr = [c for c in calls_in(fi) if norm(c.func) == "config.write"]
-    if len(wr) == 1 and "ufo_config_file" in norm(wr[0].args[0]) and from_binder(fi, wr[0], wr[0].args[1], "master", "masters") is None:
+    if len(wr) == 1 and "ufo_config_file" in norm(wr[0].args[0]) and from_binder(fi, wr[0], wr[0].args[1], M, "masters") is None:
         rr.ok("the UFO config written to the per-master file derives from this master")
     else:
-        rr.bad(fi, fi.node, "the written UFO config file/content does not derive from this master", construct="write_ufo_build: config.write")
+        rr.bad(fi, fi.node, "the written UFO config file/content does not derive from this master", construct=f"{FN}: config.write")
     b = find_calls(fi, "build")
     if len(b) != 1:
-        raise AnalysisError("write_ufo_build: expected one nw.build")
-    if norm(b[0].args[0]) == "master.output_ufo":
+        raise AnalysisError(f"{FN}: expected one nw.build")
+    if norm(b[0].args[0]) == f"{M}.output_ufo":
         rr.ok("edge output = master.output_ufo")
     else:
         rr.bad(fi, b[0], "UFO edge output is not this master's UFO", construct=short(b[0], 120))
     # variables: glyphmap and config of the same master
     vcall = find_calls(fi, "_variables_for_font_build")
-    if len(vcall) == 1 and norm(vcall[0].args[1]) == "master":
+    hoisted = in_callee_loop is not None and len(vcall) == 1 and not any(x is vcall[0] for x in ast.walk(in_callee_loop))
+    if len(vcall) == 1 and norm(vcall[0].args[1]) == M and not hoisted:
         rr.ok("_variables_for_font_build(font_config, master, ...) uses this master")
+    elif hoisted:
+        rr.bad(fi, vcall[0], f"`{short(vcall[0], 100)}` is evaluated once, outside the loop over the masters: every master's UFO edge gets the same glyphmap_file (the "
+               f"{'default master' if 'default()' in norm(vcall[0]) else 'first evaluated'}'s), i.e. is built from another master's artwork", construct=f"{FN}: font-build variables hoisted out of the per-master loop")
     else:
-        rr.bad(fi, fi.node, "font-build variables are not computed for this master", construct="write_ufo_build: _variables_for_font_build args")
+        rr.bad(fi, fi.node, "font-build variables are not computed for this master", construct=f"{FN}: _variables_for_font_build args")
     ucf = find_calls(fi, "_ufo_config")
-    if len(ucf) == 1 and norm(ucf[0].args[1]) == "master":
+    if len(ucf) == 1 and norm(ucf[0].args[1]) == M:
         rr.ok("config file name = _ufo_config(font_config, master)")
     else:
-        rr.bad(fi, fi.node, "per-master config file name does not depend on this master", construct="write_ufo_build: _ufo_config")
+        rr.bad(fi, fi.node, "per-master config file name does not depend on this master", construct=f"{FN}: _ufo_config")
     vfi = model.func("nanoemoji", "_variables_for_font_build")
     gm = [c for c in calls_in(vfi) if callee_tail(c) == "_glyphmap_file"]
     if len(gm) == 1 and norm(gm[0].args[1]) == vfi.params[1]:
@@ -88,8 +123,10 @@ def r18a(model: Model, rr: RuleResult):
     for st in walk_body(rfi):
         if isinstance(st, ast.For) and norm(st.iter) == "font_config.masters" and isinstance(st.target, ast.Name):
             for c in calls_in(st):
-                if callee_tail(c) == "write_ufo_build" and norm(c.args[-1]) == st.target.id:
+                if callee_tail(c) == FN and norm(c.args[-1]) == st.target.id:
                     okloop = True
+    if in_callee_loop is not None and norm(in_callee_loop.iter) == "font_config.masters":
+        okloop = any(callee_tail(c) == FN for c in calls_in(rfi))
     if okloop:
         rr.ok("_run: write_ufo_build is called for every master with the loop's own master")
     else:
